@@ -224,7 +224,7 @@ class Stream:
     """one correspondence stream: a component of the harness + a driver sub-command"""
 
     def __init__(self, component, flavour, quick, thorough, driver=None, driver_args=(), tags=None,
-                 rtol=1e-9, seeds_thorough=8, corpus=None, canon=None):
+                 rtol=1e-9, seeds_thorough=8, corpus=None, canon=None, state_tags=()):
         self.component, self.flavour = component, flavour
         self.quick, self.thorough = quick, thorough
         self.driver = driver or component
@@ -233,6 +233,9 @@ class Stream:
         self.seeds_thorough = seeds_thorough
         self.corpus = corpus or component
         self.canon = canon          # optional canonicalisation of a sections dict (e.g. sort fills)
+        # sections compared only to validate the model's state against the code's (a difference there
+        # breaks the correspondence but is not by itself an output the property speaks about)
+        self.state_tags = set(state_tags)
 
 
 def run_ops(stream, ops_path, wdir, tag):
@@ -240,9 +243,11 @@ def run_ops(stream, ops_path, wdir, tag):
     annot = os.path.join(wdir, f"{tag}.annot")
     impl = os.path.join(wdir, f"{tag}.impl")
     model = os.path.join(wdir, f"{tag}.model")
-    rc, out = sh([HBIN, stream.component, "run", ops_path, annot, impl])
-    if rc != 0:
-        raise CheckError(f"harness run failed ({stream.component}): {out[-500:]}")
+    # JuraV1::tick prints its book to stdout: the protocol never uses stdout, discard it
+    p = subprocess.run([HBIN, stream.component, "run", ops_path, annot, impl], env=ENV,
+                       stdout=subprocess.DEVNULL, stderr=subprocess.PIPE, text=True, errors="replace")
+    if p.returncode != 0:
+        raise CheckError(f"harness run failed ({stream.component}): {p.stderr[-500:]}")
     with open(annot) as fin, open(model, "w") as fout:
         p = subprocess.run([DRIVER, stream.driver] + stream.driver_args, stdin=fin, stdout=fout,
                            stderr=subprocess.PIPE, text=True)
@@ -252,7 +257,8 @@ def run_ops(stream, ops_path, wdir, tag):
     stats = {}
     if os.path.exists(impl + ".stats"):
         stats = json.load(open(impl + ".stats"))
-    return rd(annot), rd(impl), rd(model), stats
+    ops_lines = [l.strip() for l in open(ops_path) if l.strip()]
+    return (ops_lines, rd(annot)), rd(impl), rd(model), stats
 
 
 def gen_ops(stream, seed, cases, tier, wdir, tag):
@@ -293,10 +299,11 @@ def strip_annot(line):
 
 def examine(prop, stream, annot, impl, model, origin, collect):
     """compare and monitor all cases of one run. appends Failure objects to collect['fails']"""
-    ca, ci, cm = split_cases(annot), split_cases(impl), split_cases(model)
-    if not (len(ca) == len(ci) == len(cm)):
-        raise CheckError(f"case structure differs: {len(ca)} {len(ci)} {len(cm)}")
-    for a, i, m in zip(ca, ci, cm):
+    ops, annot = annot
+    co, ca, ci, cm = split_cases(ops), split_cases(annot), split_cases(impl), split_cases(model)
+    if not (len(co) == len(ca) == len(ci) == len(cm)):
+        raise CheckError(f"case structure differs: {len(co)} {len(ca)} {len(ci)} {len(cm)}")
+    for o, a, i, m in zip(co, ca, ci, cm):
         collect["cases"] += 1
         collect["evaluations"] += len(a) - 1
         h = hashlib.sha1("\n".join(a).encode()).hexdigest()
@@ -308,21 +315,32 @@ def examine(prop, stream, annot, impl, model, origin, collect):
             collect["samples"].append({"component": stream.component, "origin": origin,
                                        "ops": a[:12], "impl": i[:12]})
         if len(i) != len(a) or len(m) != len(a):
-            collect["fails"].append(Failure("correspondence", stream, [strip_annot(x) for x in a], 0,
+            collect["fails"].append(Failure("correspondence", stream, list(o), 0,
                                             "line-count", f"{len(a)} ops, {len(i)} impl lines, {len(m)} model lines", origin=origin))
             continue
         # (B) monitors on the implementation's own trace
         for (step, clause, detail) in prop.monitor(stream, a, i):
-            collect["fails"].append(Failure("monitor", stream, [strip_annot(x) for x in a], step, clause, detail,
+            collect["fails"].append(Failure("monitor", stream, list(o), step, clause, detail,
                                             impl=i[step] if step < len(i) else None, origin=origin))
             break
-        # (A) correspondence on the property's alphabet
+        # (A) correspondence: first difference on the property's alphabet; failing that, first
+        # difference on the state sections (model validation only)
+        k1 = k2 = None
         for k in range(len(a)):
             why = line_eq(i[k], m[k], stream.tags, stream.rtol, stream.canon)
             if why is not None:
-                collect["fails"].append(Failure("correspondence", stream, [strip_annot(x) for x in a], k,
-                                                "model-vs-impl", why, impl=i[k], model=m[k], origin=origin))
+                k1 = (k, why)
                 break
+            if stream.state_tags and k2 is None:
+                why = line_eq(i[k], m[k], stream.state_tags, stream.rtol, None)
+                if why is not None:
+                    k2 = (k, why)
+        if k1 is not None:
+            collect["fails"].append(Failure("correspondence", stream, list(o), k1[0],
+                                            "model-vs-impl", k1[1], impl=i[k1[0]], model=m[k1[0]], origin=origin))
+        elif k2 is not None:
+            collect["fails"].append(Failure("correspondence", stream, list(o), k2[0],
+                                            "model-vs-impl-state", k2[1], impl=i[k2[0]], model=m[k2[0]], origin=origin))
 
 
 def still_fails(prop, stream, ops_lines, wdir, want_kind, want_clause):
